@@ -54,6 +54,7 @@ TInit == Init /\ tid \in 1..Len(Traces) /\ l = 1 /\ verdict = <<"ok", "">> /\ dr
 Step == /\ verdict[1] = "ok" /\ l <= Len(Tr) /\ l' = l + 1 /\ tid' = tid /\ UNCHANGED vars
         /\ LET e == Tr[l] IN
            /\ verdict' = CASE e.op = "hang" -> <<"C15.Bounded", "the master's update() did not return (virtual-time watchdog)">>
+                             [] e.op = "raise" -> <<"C15.NoRaise", "the master's update() raised while serving a request">>
                              [] e.op = "req" -> ReqClause(e) [] e.op = "rel" -> RelClause(e)
                            [] e.op = "saveload" -> SaveLoadClause(e)
                            [] e.op = "save" -> <<"ok", "">> [] e.op = "load" -> LoadClause(e)
